@@ -54,4 +54,23 @@ def Resolution.code : Resolution → Nat
   | .conflict _ => 203
   | .notFound => 200
 
+/-- outcome of the existence check of `Executor.Run` -/
+inductive RunOutcome
+  | refused (code : Nat)      -- nothing ran
+  | ran (idxs : List Nat)     -- these tasks, in this order
+deriving Repr, DecidableEq
+
+/-- the existence check at the head of `Executor.Run`: every requested name is resolved, in
+order, BEFORE anything runs; the first name that does not resolve decides the error (its
+code), and then nothing is run at all; otherwise the tasks run in request order. -/
+def runCheck (tbl : List Entry) : List Str → RunOutcome
+  | [] => .ran []
+  | r :: rs =>
+    match resolve tbl r with
+    | .found i _ =>
+      match runCheck tbl rs with
+      | .ran is => .ran (i :: is)
+      | .refused c => .refused c
+    | res => .refused res.code
+
 end TaskModel.Resolve
